@@ -137,10 +137,10 @@ Definition hyp_density (d : Z) (l k : T) : T :=
   if isclose0 k then pw (l /! lit 4 0) (zd d) /! Gam (zd d /! two +! one) /! pw sqrtpi (zd d)
   else Gam (zd d /! two +! one) /! pw sqrtpi (zd d) *! sq (Jv (zd d /! two) (k *! l /! two)) /! pw k (zd d).
 
-(* ---------- JBessel: band-limited spectrum, divisor cut at gamma(0.01) ~ 100 *)
+(* ---------- JBessel: band-limited spectrum, divisor cut at nu - (d/2-1) = 0.01: gamma(np.maximum(.., 0.01)) *)
 Definition jb_density (d : Z) (l nu k : T) : T :=
   if nltb O k (one /! l) then
-    pw (l /! sqrtpi) (zd d) *! Gam (nu +! one) /! nmin (Gam (nu -! zd d /! two +! one)) (lit 100 0)
+    pw (l /! sqrtpi) (zd d) *! Gam (nu +! one) /! Gam (nmax (nu -! zd d /! two +! one) (lit 1 2))
     *! pw (one -! sq (k *! l)) (nu -! zd d /! two)
   else zero.
 
